@@ -143,7 +143,7 @@ def run(ctx: Ctx) -> int:
         [("pm", ("n", 4), "INPUT_PULLUP"), ("dr", ("s", "4")), ("pm", ("n", 4), "INPUT"), ("dr", ("n", 4))],
         [("aw", ("s", "A0"), 300), ("ar", ("s", "A0")), ("aw", ("n", 3), -5), ("ar", ("s", "3")), ("aw", ("n", 3), 2.5), ("ar", ("n", 3))],
     ]
-    for _ in range(ctx.n(300, 5000)):
+    for _ in range(ctx.n(900, 5000)):
         core_cases.append(gen_core(rng))
     for ops in core_cases:
         line = core_line(ops)
@@ -171,7 +171,7 @@ def run(ctx: Ctx) -> int:
         if abs(r - want) > 1e-9 * max(1.0, abs(want)):
             ctx.fail("map:affine", f"map{tuple(a)} = {r}, affine map gives {want}", {"request": line})
 
-    for _ in range(ctx.n(200, 3000)):
+    for _ in range(ctx.n(600, 3000)):
         a = [rng.choice(NUMS) for _ in range(5)]
         if rng.random() < 0.3:
             a[0] = rng.choice([a[1], a[2]])
